@@ -135,6 +135,15 @@ pub fn ops(tier_thorough: bool) -> Vec<OpSpec> {
                 }
                 v.push(OpSpec { name: "sign".into(), fmt: fmt.into(), data: src.clone(), sidecar: None, settings: bh });
             }
+            if fmt == "video/mp4" {
+                // BMFF hash with a Merkle map (file-level hash + per-mdat Merkle passes)
+                let mk = json!({"core": {"merkle_tree_chunk_size_in_kb": 64}});
+                if let Ok(signed_mk) = sign_bytes(ctx(&mk), &simple_manifest_json("c23 merkle", fmt), fmt, &src, "ed25519") {
+                    v.push(OpSpec { name: "read".into(), fmt: fmt.into(), data: signed_mk.clone(), sidecar: None, settings: mk.clone() });
+                    v.push(OpSpec { name: "ingredient".into(), fmt: fmt.into(), data: signed_mk, sidecar: None, settings: mk.clone() });
+                }
+                v.push(OpSpec { name: "sign".into(), fmt: fmt.into(), data: src.clone(), sidecar: None, settings: mk });
+            }
             // sidecar read: manifest store bytes + the signed asset
             if let Ok(store) = c2pa::jumbf_io::load_jumbf_from_memory(fmt, &signed) {
                 v.push(OpSpec { name: "read_sidecar".into(), fmt: fmt.into(), data: signed.clone(), sidecar: Some(store), settings: none.clone() });
